@@ -160,6 +160,7 @@ func VerifHarness_C06_recover_decision() {
 	mkBlock := func(h int64, app, rc []byte, last types.BlockID) (*types.Block, *types.PartSet) {
 		b := &types.Block{Header: &types.Header{ChainID: "c", Height: h, Time: time.Unix(1600000000+h, 0), AppHash: app, ReceiptsHash: rc, LastBlockID: last, ValidatorsHash: []byte{1}},
 			Data: &types.Data{}, LastCommit: &types.Commit{}}
+		b.FillHeader() // as MakeBlock does: data / last-commit hashes are in the header BEFORE the block is serialised
 		return b, b.MakePartSet(4096)
 	}
 	b1, p1 := mkBlock(1, []byte{0xA0}, []byte{0xB0}, types.BlockID{})
@@ -239,3 +240,4 @@ func VerifHarness_C06_recover_decision() {
 	vAssert(fin2.LastBlockHeight == fin.LastBlockHeight && fin2.LastBlockID.Equals(fin.LastBlockID), "second-recovery-same-result-as-first")
 	vAssert(receiptsOK, "recovered-receipts-hash-as-uncrashed")
 }
+
